@@ -302,6 +302,22 @@ def client(env, T, cid, rng, nops, W, H, mode, mon, other):
             except (AttributeError, NotImplementedError) as e:
                 mon.violation("C11", "can_query_crashed", f"{T.kind}:can_{side}:{type(e).__name__}", {"exc": repr(e)})
                 continue
+            # reported occupancy = in-transit + ready items (shadow: put minus got)
+            occ = None
+            for name in ("occupancy", "get_occupancy", "belt_occupancy"):
+                f = getattr(T.edge, name, None)
+                if f is None:
+                    continue
+                try:
+                    occ = f()
+                    break
+                except NotImplementedError:
+                    continue
+            if occ is not None:
+                mon.counters["c11_occupancy_checks"] += 1
+                if occ != len(sh.held):
+                    mon.violation("C11", "occupancy_wrong", f"{T.kind}:reported-occupancy!=in-transit+ready",
+                                  {"reported": occ, "held": len(sh.held), "ready": len(sh.ready() or [])})
             H.probe[side] += 1
             if nontriv:
                 H.probe[side + "_nontrivial"] += 1
